@@ -91,22 +91,42 @@ def _reg():
     add("focal_mean", 1, lambda r, v: focal.mean(r[0], passes=v % 3), identity=True)
     add("focal_apply", 1, lambda r, v: focal.apply(r[0], [K3, K13][v % 2]), identity=True)
     add("focal_stats", 1, lambda r, v: focal.focal_stats(r[0], K3, stats_funcs=["mean", "max"]), own_shape=True)
-    add("hotspots", 1, lambda r, v: focal.hotspots(r[0], K3), identity=True, hotspots=True, nonconstant=True)
+    add("hotspots", 1, lambda r, v: focal.hotspots(r[0], [K3, K13][v % 2]), identity=True, hotspots=True, nonconstant=True)
     add("convolution_2d", 1, lambda r, v: convolution.convolution_2d(r[0], [K3, K13][v % 2]), identity=True)
-    add("binary", 1, lambda r, v: classify.binary(r[0], [1, 2]), identity=True)
-    add("reclassify", 1, lambda r, v: classify.reclassify(r[0], [1, 3, 9], [1, 2, 3]), identity=True)
-    add("quantile", 1, lambda r, v: classify.quantile(r[0], k=3), identity=True, finite=True)
-    add("natural_breaks", 1, lambda r, v: classify.natural_breaks(r[0], k=3), identity=True, numpy_only=True, finite=True)
-    add("equal_interval", 1, lambda r, v: classify.equal_interval(r[0], k=3), identity=True, nonconstant=True)
+    add("binary", 1, lambda r, v: classify.binary(r[0], [[1, 2], [77], [0.5, 3]][v % 3]), identity=True)
+    add("reclassify", 1, lambda r, v: classify.reclassify(r[0], [[1, 3, 9], [-5], [0, 0, 2, 100]][v % 3], [[1, 2, 3], [9], [4, 3, 2, 1]][v % 3]), identity=True)
+    # k above the number of distinct values and a small num_sample take the "not enough unique values" / sampling paths
+    add("quantile", 1, lambda r, v: classify.quantile(r[0], k=[3, 40, 2][v % 3]), identity=True, finite=True)
+    add("natural_breaks", 1, lambda r, v: classify.natural_breaks(r[0], k=[3, 40, 2, 3][v % 4], num_sample=[20000, 20000, 5, None][v % 4]),
+        identity=True, numpy_only=True, finite=True)
+    add("equal_interval", 1, lambda r, v: classify.equal_interval(r[0], k=[3, 7, 2][v % 3]), identity=True, nonconstant=True)
     for nm, nb in (("arvi", 3), ("evi", 3), ("gci", 2), ("nbr", 2), ("nbr2", 2), ("ndvi", 2), ("ndmi", 2), ("savi", 2), ("sipi", 3), ("ebbi", 3)):
         add(nm, nb, lambda r, v, nm=nm: getattr(ms, nm)(*r), identity=True)
     add("true_color", 3, lambda r, v: ms.true_color(*r), own_shape=True, needs_yx=True)
-    add("proximity", 1, lambda r, v: X.proximity(r[0], max_distance=[np.inf, 2.0][v % 2]), identity=True, slow=True, needs_yx=True)
-    add("allocation", 1, lambda r, v: X.allocation(r[0]), identity=True, slow=True, needs_yx=True)
-    add("direction", 1, lambda r, v: X.direction(r[0]), identity=True, slow=True, needs_yx=True)
-    add("a_star_search", 1, lambda r, v: X.a_star_search(r[0], (float(r[0].y[0]), float(r[0].x[0])), (float(r[0].y[-1]), float(r[0].x[-1])),
-                                                          barriers=[0], snap_start=bool(v % 2), snap_goal=bool(v % 2)), identity=True, numpy_only=True, needs_yx=True)
-    add("viewshed", 1, lambda r, v: X.viewshed(r[0], x=float(r[0].x[1]), y=float(r[0].y[1]), observer_elev=1.0), identity=True, numpy_only=True, widen=True, finite=True, needs_yx=True)
+    _pk = lambda v: dict(max_distance=[np.inf, 2.0, 0.3, 1e9][v % 4], target_values=[[], [1], [77], [0, 3]][(v // 2) % 4],  # noqa
+                         distance_metric=["EUCLIDEAN", "MANHATTAN"][(v // 3) % 2])
+    add("proximity", 1, lambda r, v: X.proximity(r[0], **_pk(v)), identity=True, slow=True, needs_yx=True)
+    add("allocation", 1, lambda r, v: X.allocation(r[0], **_pk(v)), identity=True, slow=True, needs_yx=True)
+    add("direction", 1, lambda r, v: X.direction(r[0], **_pk(v)), identity=True, slow=True, needs_yx=True)
+    def _astar(r, v):
+        # variants exercise different code paths: corner to corner, start / goal on other cells (often a barrier or NaN cell: the
+        # "nothing reachable" paths), snapping on and off, 4- and 8-connectivity
+        a = r[0]
+        ys, xs = a[a.dims[0]].values, a[a.dims[1]].values
+        h, w = a.shape
+        c = (h // 2, w // 2)
+        # (start, goal, barriers, snap_start, snap_goal, connectivity)
+        conf = [((0, 0), (h - 1, w - 1), [0], False, False, 8), ((0, w - 1), (h - 1, 0), [0], False, False, 4),
+                ((1, 1), (h - 1, w - 1), [0], False, False, 8), ((h - 1, w - 1), (1, 1), [0, 1], False, False, 8),
+                (c, (0, 0), [0], True, False, 8), ((0, 0), c, [0, 1], False, True, 4), ((0, w - 1), c, [0], True, True, 8),
+                ((0, 0), (0, 0), [], False, False, 8), (c, (h - 1, 0), [1, 2, 3], False, False, 8), ((1, 0), (0, 1), [0, 2], False, False, 4),
+                ((h - 1, 0), (0, w - 1), [5], False, True, 8), ((0, 1), (h - 1, w - 2), [0, 1, 2, 3, 4, 5], False, False, 8)]
+        (sy_, sx_), (gy_, gx_), bar, ss, sg, conn = conf[v % len(conf)]
+        return X.a_star_search(a, (float(ys[sy_]), float(xs[sx_])), (float(ys[gy_]), float(xs[gx_])), barriers=bar,
+                               snap_start=ss, snap_goal=sg, connectivity=conn)
+    add("a_star_search", 1, _astar, identity=True, numpy_only=True, needs_yx=True)
+    add("viewshed", 1, lambda r, v: X.viewshed(r[0], x=float(r[0].x[[1, 0, -1][v % 3]]), y=float(r[0].y[[1, 0, -1][(v // 2) % 3]]),
+                                               observer_elev=[1.0, 0.0, -1.0][v % 3], target_elev=[0, 2][v % 2]), identity=True, numpy_only=True, widen=True, finite=True, needs_yx=True)
     add("regions", 1, lambda r, v: X.regions(r[0], neighborhood=[4, 8][v % 2]), identity=True, numpy_only=True)
     add("trim", 1, lambda r, v: zonal.trim(r[0], values=[0]), view=True, numpy_only=True, keeps=True)
     add("crop", 2, lambda r, v: zonal.crop(r[0], r[1], zones_ids=[1, 2, 3, 4, 5]), view=True, numpy_only=True, view_of=1, keeps_crop=True)
@@ -390,7 +410,7 @@ def new_step(draw, dtype=None, layout=None, backend=None, dtypes=None):
 @st.composite
 def call_step(draw, names=None):
     return {"op": "call", "fn": draw(st.sampled_from(names or fn_names())), "args": [draw(st.integers(0, 11)), draw(st.integers(0, 11)), draw(st.integers(0, 11))],
-            "variant": draw(st.integers(0, 5))}
+            "variant": draw(st.integers(0, 23))}
 
 
 def run_machine(ctx, max_examples, step_count, fast_only=False, dtypes=None):
@@ -513,8 +533,8 @@ def matrix_cases(names, combos):
                               "scalar_coord": True, "attrs": True, "name": "in"})
             if fn in ("zonal_apply", "local_popularity", "local_rank"):
                 steps[0], steps[1] = steps[1], steps[0]
-            steps.append({"op": "call", "fn": fn, "args": [0, 1, 2], "variant": 1})
-            steps.append({"op": "call", "fn": fn, "args": [0, 1, 2], "variant": 2})
+            for var in ((1, 2, 3, 4, 6, 11) if reg()[fn][1].get("slow") else range(12)):
+                steps.append({"op": "call", "fn": fn, "args": [0, 1, 2], "variant": var})
             yield {"sub": "seq", "steps": steps, "matrix": [fn, dtype, layout, backend]}
 
 
